@@ -109,6 +109,11 @@ func (c *Collection) Update(id string, msg proto.Message, opts ...WriteOption) (
 		&c.mu,
 		func() (item proto.Message, err error) {
 			if created != nil {
+				if _, exists := c.byId[id]; exists {
+					// a concurrent write created the item since our first read,
+					// report a different value so the optimistic check fails
+					return nil, nil
+				}
 				return created, nil
 			}
 
